@@ -79,16 +79,36 @@ func (x *tr) checkUsed() {
 			fail("%s: returns entry %q matches no return", x.t.Func, r[0])
 		}
 	}
+	for _, kind := range []struct {
+		tag string
+		m   map[string]string
+	}{{"act", x.t.Acts}, {"err", x.t.Errs}, {"sym", x.t.Symbols}} {
+		for k := range kind.m {
+			if x.used[kind.tag+" "+norm(k)] == 0 {
+				fail("%s: %ss entry %q matches nothing", x.t.Func, kind.tag, k)
+			}
+		}
+	}
 }
 
 // registerOpaque makes the (non-pointer) opaque locals parameters.
 func (x *tr) registerOpaque() {
 	for _, o := range x.t.Opaque {
-		if x.t.Types[o] == "ptr" {
+		if x.t.Types[o] == "ptr" || x.errsBound(o) {
 			continue
 		}
 		x.useVar(o)
 	}
+}
+
+// errsBound: every definition of the opaque local o has its own parameter (errs), there is no generic one.
+func (x *tr) errsBound(o string) bool {
+	for _, spec := range x.t.Errs {
+		if v, _, _ := strings.Cut(spec, ":"); v == o {
+			return true
+		}
+	}
+	return false
 }
 
 // noShadow: while a continuation is duplicated into branches (early returns), block scopes are
@@ -130,7 +150,12 @@ func (x *tr) nilCompare(v *ast.BinaryExpr) (string, bool) {
 	if !ok || x.t.Types[p] != "ptr" {
 		fail("%s: nil test of %s: the path must be typed \"ptr\"", x.t.Func, x.text(other))
 	}
-	s, _ := x.useVar(p + ".notnil")
+	var s string
+	if a, ok := x.alias[p]; ok { // errs: this definition of p has its own parameter
+		s, _ = x.useVar(a)
+	} else {
+		s, _ = x.useVar(p + ".notnil")
+	}
 	if v.Op == token.EQL {
 		return "(!" + s + ")", true
 	}
@@ -179,7 +204,10 @@ func (x *tr) returnCode(v *ast.ReturnStmt) (string, bool) {
 // `init; if a || b { A } else if c { B } else { D }`.
 func (x *tr) desugarSwitch(v *ast.SwitchStmt) []ast.Stmt {
 	if v.Tag != nil {
-		fail("%s: unsupported switch with a tag: %s", x.t.Func, x.text(v.Tag))
+		// `switch tag { case a, b: }` is `tag == a || tag == b`; the tag must be a plain path (no effects)
+		if _, ok := pathOf(v.Tag); !ok {
+			fail("%s: unsupported switch tag (not a path): %s", x.t.Func, x.text(v.Tag))
+		}
 	}
 	var pre []ast.Stmt
 	if v.Init != nil {
@@ -198,6 +226,9 @@ func (x *tr) desugarSwitch(v *ast.SwitchStmt) []ast.Stmt {
 			fail("%s: unsupported switch clause", x.t.Func)
 		}
 		for _, st := range cc.Body {
+			if _, isAct := x.actOf(st); isAct {
+				continue // not translated: only its action code is recorded
+			}
 			ast.Inspect(st, func(n ast.Node) bool {
 				if b, ok := n.(*ast.BranchStmt); ok {
 					fail("%s: unsupported %s in switch", x.t.Func, b.Tok)
@@ -209,9 +240,15 @@ func (x *tr) desugarSwitch(v *ast.SwitchStmt) []ast.Stmt {
 			def, hasDef = cc.Body, true
 			continue
 		}
-		cond := cc.List[0]
+		test := func(e ast.Expr) ast.Expr {
+			if v.Tag == nil {
+				return e
+			}
+			return &ast.BinaryExpr{X: v.Tag, Op: token.EQL, Y: e}
+		}
+		cond := test(cc.List[0])
 		for _, e := range cc.List[1:] {
-			cond = &ast.BinaryExpr{X: cond, Op: token.LOR, Y: e}
+			cond = &ast.BinaryExpr{X: cond, Op: token.LOR, Y: test(e)}
 		}
 		cls = append(cls, clause{cond, cc.Body})
 	}
@@ -278,6 +315,7 @@ func (x *tr) findIfCond(fd *ast.FuncDecl, marker string, count, nth int) ast.Exp
 			fail("%s: unsupported if-init %s", x.t.Func, x.text(hit.Init))
 		}
 		x.registerOpaque()
+		x.bindErr(hit.Init)
 	}
 	return hit.Cond
 }
